@@ -248,6 +248,26 @@ def run(chk):
         chk.evals(total)
         chk.part('replay_' + cfgname, sequences_replayed=total, of_sequences_with_7_or_more_samples=k)
         os.remove(res.dump_path)
+    # near ties at a large magnitude: loads whose ranges / extremes differ by one or two counts at 2^24 (every sequence replayed)
+    cfgname = 'MC_HCM_near_quick.cfg' if quick else 'MC_HCM_near_thorough.cfg'
+    res = tlc.run(TLA, os.path.join(SPEC, 'hcm', cfgname), dump=True, timeout=3000, heap='12g')
+    chk.tlc(cfgname, res, 'strictly alternating load sequences over {-(2^24+1), -2^24, 0, 3, 2^24, 2^24+2}; SecondPass = Periodic, Memory3, counters')
+    if res.violated:
+        st = res.trace[-1] if res.trace else {}
+        chk.machinery.append('model invariant %s violated for %s (near-tie instance)' % (res.violated, st.get('s')))
+    if res.dump_path and os.path.exists(res.dump_path):
+        total = 0
+        for n, nontriv, drift, viol, samples in par.pmap(_replay_blocks, par.split_dump(res.dump_path, 64), chunksize=1):
+            total += n
+            for kk in nontriv:
+                chk.nontrivial(kk)
+            chk.drift += drift
+            for what, case, exp, got in viol:
+                chk.violation(what, case, exp, got, part='replay_near_ties')
+        chk.cov['traces_validated_against_impl'] += total
+        chk.evals(total)
+        chk.part('replay_' + cfgname, sequences_replayed=total)
+        os.remove(res.dump_path)
     # (C) recorded longer sequences + refinements, validated by TLC (model conformance + C04 on the logged content)
     rng = random.Random(chk.seed * 6151 + 11)
     nseq = 60 if quick else 500
@@ -309,7 +329,7 @@ def run(chk):
                        'SecondPass = rainflow of the periodic reversal sequence; every sequence is replayed into FKMNonlinearDetector (exact linear law) and the '
                        'recorder content is judged by the same definition-level predicate (every third sequence also in a second load unit, factor 2^-30). Non-trivial = periodic sequence closes >= 2 hystereses. '
                        'Recorded longer sequences and their non-reversal refinements are validated by Trace_HCM.tla (model conformance + C04 on the logged rows).')
-    chk.cov['rule'] += ' Also: strictly alternating sequences over -3..3 with up to 8 (9) samples (TLC on all, a fixed sample replayed), every third sequence in a second load unit (2^-30), every fifth as two proportional points with load steps labelled in descending order; sequences are handed over in arrays that are overwritten after each call.'
+    chk.cov['rule'] += ' Also: strictly alternating sequences over -3..3 with up to 8 (9) samples (TLC on all, a fixed sample replayed), every third sequence in a second load unit (2^-30), every fifth as two proportional points with load steps labelled in descending order; strictly alternating sequences over {-(2^24+1), -2^24, 0, 3, 2^24, 2^24+2} with up to 6 (7) samples (near ties at a magnitude where x - 1e-12 = x), all replayed; sequences are handed over in arrays that are overwritten after each call.'
     chk.cov['exhaustive'] = True
     chk.assumptions += ['integer loads (and the same loads times 2^-30): the 1e-12 comparison tolerances of the code do not act', 'injected exact linear law object (the detector accepts any law object)',
                         'single assessment point (multi-point decisions are covered by C05)']
